@@ -990,6 +990,19 @@ var errSeeds = []struct{ class, expr string }{
 	{"variadic-type", "merge(`{}`, `1`)"},
 	{"expref-as-value", "to_string(&@)"},
 	{"nested", "length(abs(`\"a\"`))"},
+	// strings that spell numbers are strings
+	{"numeric-string", "abs(`\"1\"`)"},
+	{"numeric-string-array", "sum(`[\"1\",\"2\"]`)"},
+	{"numeric-string-mixed", "max(`[1,\"2\",3]`)"},
+	{"numeric-string-avg", "avg(`[\"1e3\"]`)"},
+	{"numeric-string-sort", "sort(`[1,\"2\"]`)"},
+	{"numeric-string-nan", "sum(`[\"NaN\",1]`)"},
+	{"numeric-string-ceil", "ceil(`\"1.5\"`)"},
+	// and numbers are not strings
+	{"number-as-string", "join(`\",\"`, `[1,2]`)"},
+	{"number-as-string-arg", "starts_with(`12`, `\"1\"`)"},
+	{"bool-as-number", "sum(`[true,1]`)"},
+	{"null-in-array", "max(`[null,1]`)"},
 }
 
 // strict context constructors: the hole (%s) is always evaluated.
